@@ -14,7 +14,7 @@ import traceback
 
 sys.path.insert(0, os.path.dirname(os.path.abspath(__file__)))
 
-from common import VERIF, Machinery, workdir  # noqa: E402
+from common import VERIF, Machinery, workdir, snapshot_tla  # noqa: E402
 
 
 class Ctx:
@@ -25,6 +25,7 @@ class Ctx:
         self.explore = explore
         self.t0 = time.time()
         self.wd = workdir(pid)
+        snapshot_tla(self.wd)
         self.violations = []     # dicts: id, clause, info, replay payload
         self.known = {}          # kf id -> count
         self.cov = {"evaluations": 0, "distinct_nontrivial": 0, "states": 0, "transitions": 0,
